@@ -109,6 +109,11 @@ def gen_may(rng, kn):
                 out = ('raise', 3, 8)
             if budget[0] > 0 and slot != SLOT['finalize_event'] and rng.random() < kn.p_cmd:
                 kind = rng.choice((MAY, MAY, TRIGGER))
+                if slot in (SLOT['on_enter'], SLOT['on_exit']):
+                    # while an on_enter / on_exit callback runs, NestedState._scope changes the `name` of that state
+                    # object; a re-entrant TRIGGER that re-enters it builds its tree from `state.name` and fails inside
+                    # the engine (not modelled, nothing to do with may_): such callbacks only issue may_ calls
+                    kind = MAY
                 ev = rng.choice(known or [0]) if rng.random() > 0.05 else unknown
                 cmds.append((kind, 0, ev))
                 budget[0] -= 1
